@@ -14,6 +14,7 @@ import (
 	"sort"
 	"strings"
 	"testing"
+	"time"
 
 	"github.com/apernet/hysteria/core/v2/internal/protocol"
 	"verif.local/engine/evidence"
@@ -40,7 +41,8 @@ var (
 	c02RXs       = []string{"-", "0", "100000", "abc"}
 	c02Noises    = []string{"", "padding", "udp"}
 	c02Histories = []string{"fresh", "after-rejected-auth", "after-accepted-auth", "after-two-masq-requests",
-		"after-another-connection-authenticated-and-closed", "while-another-connection-is-authenticated"}
+		"after-another-connection-authenticated-and-closed", "while-another-connection-is-authenticated",
+		"on-a-connection-busy-for-longer-than-any-timeout"}
 )
 
 // custom masquerade handler: echoes the request into status, headers (one of its own choosing,
@@ -163,6 +165,14 @@ func c02Run(c *c02Case) (clause string) {
 		case 3:
 			_, _ = cl.request("GET", "example.com", "/", nil)
 			_, _ = cl.request("POST", "hysteria", "/other", nil)
+		case 6:
+			// a connection that is never idle for long but grows old: a request every 20 s (virtual
+			// time) for two minutes — a browser reusing its connection. No timer of the server may turn
+			// the unauthenticated peer away with anything but the masquerade response.
+			for i := 0; i < 6; i++ {
+				_, _ = cl.request("GET", "example.com", "/", nil)
+				e.Sleep(int64(20 * time.Second))
+			}
 		}
 		resp, err := cl.request(c.Method, c.Host, c.Path, c02Header(c))
 		if err != nil {
